@@ -11,7 +11,7 @@ PROC_NTS = {l for l, _ in grammar.parse_rules(grammar.PROC)} | {l for l, _ in gr
 def select(lhs, fam):
     if lhs == 'plain_terminated':
         return True
-    return fam in PLAIN_FAMS and lhs not in PROC_NTS and lhs != 'nestedcase'
+    return fam in PLAIN_FAMS and lhs not in PROC_NTS
 
 
 def region_rule_obligations(rep):
@@ -47,7 +47,7 @@ def _can_start(rx, ch):
 
 
 def run(rep):
-    common.verify_functions(rep, [(CSL, 'opaque token'), (CSL, 'punctuation'), (CSL, 'total')])
+    common.verify_functions(rep, [(CSL, 'opaque token'), (CSL, 'punctuation'), (CSL, 'total'), (CSL, 'state invariant')])
     pc = sc._pc('C05')
     for o in sc.production_obligations('C05', select):
         if o.status == FAILED:
